@@ -9,7 +9,7 @@
 (* truth tables of Dnf.tla; a BAD record is printed for each event that    *)
 (* fails, with the classification computed here.                           *)
 (***************************************************************************)
-EXTENDS Dnf, IOUtils
+EXTENDS DnfImpl, IOUtils
 
 Trc == ndJsonDeserialize(IOEnv.TRACE)
 
@@ -69,6 +69,9 @@ EvMk == /\ IsEvent("DMk")
                     /\ (e.isF => TDnf(e.r) = {}), reach)
            /\ (Outcome(e) = "ok" /\ WfDnf(e.r) /\ ((TDnf(e.r) = Masks) # e.isT \/ (TDnf(e.r) = {}) # e.isF))
                  => PrintT("DRIFT " \o ToJson([l |-> l, what |-> "dnfIsTrue/dnfIsFalse do not recognise a constant", r |-> e.r]))
+           \* implementation-shaped prediction (DnfImpl.tla, the algorithms as written): drift only
+           /\ (Outcome(e) = "ok" /\ WfDnf(e.r) /\ Impl(e.f) # e.r)
+                 => PrintT("DRIFT-IMPL " \o ToJson([l |-> l, f |-> e.f, code |-> e.r, model |-> Impl(e.f)]))
         /\ UNCHANGED <<cs, reach>>
 EvCopy == /\ IsEvent("DCopy")
           /\ LET e == Trc[l] IN Judge(e, "copy", WfDnf(e.x) /\ WfDnf(e.r), TDnf(e.r) = TDnf(e.x), FALSE)
